@@ -4,7 +4,7 @@ import glob, json, os
 print("| seed | property | what it breaks / needs (author's words, shortened) | caught by (quick, final tree) | note |")
 print("|---|---|---|---|---|")
 notes = json.load(open("/verif/seeded/NOTES.json")) if os.path.exists("/verif/seeded/NOTES.json") else {}
-for d in sorted(glob.glob("/verif/seeded/C*")):
+for d in sorted(glob.glob("/verif/seeded/[CW]*")):
     m = json.load(open(d + "/meta.json"))
     name = os.path.basename(d)
     runs = m.get("our_runs", {})
@@ -33,3 +33,29 @@ if os.path.exists("/verif/mutants/results.json"):
         print("| %s | %s | `%s` → `%s` | %s | %s | %s |" % (mid, f.replace("mir_eval/", ""), o.replace("|", "/"), n.replace("|", "/"),
               "pass" if r.get("baseline_ok") else "FAIL", ", ".join(r.get("caught_by", [])) or "none",
               ", ".join(c for c, v in r["checks"].items() if v["exit"] == 0)))
+
+print()
+print("| benign change | file | summary (author's words) | observable difference | checks run (quick, seed 0) | alarms |")
+print("|---|---|---|---|---|---|")
+for g in sorted(glob.glob("/verif/benign/*")):
+    rs = sorted(glob.glob(g + "/result_*.json"))
+    res = [json.load(open(r)) for r in rs]
+    for kj in sorted(glob.glob(g + "/*.json"), key=lambda s: (len(s), s)):
+        if os.path.basename(kj).startswith("result_"):
+            continue
+        k = os.path.basename(kj)[:-5]
+        m = json.load(open(kj))
+        alarms = []
+        nrun = 0
+        for r in res:
+            single = r.get("attribution", {}).get(k + ".diff", {}).get("checks")
+            if single is not None:
+                alarms += ["%s(exit %d)" % (c, v["exit"]) for c, v in single.items() if v["exit"] != 0]
+            if (k + ".diff") in r.get("stacked", []):
+                nrun = max(nrun, len(r.get("checks", {})))
+                if not single:
+                    pass
+        note = notes.get("benign:%s-%s" % (os.path.basename(g), k), "")
+        print("| %s-%s | %s | %s | %s | %d | %s |" % (os.path.basename(g), k, str(m.get("file", "")).replace("mir_eval/", ""),
+              str(m.get("summary", ""))[:150].replace("|", "/"), str(m.get("observable_difference", ""))[:120].replace("|", "/"),
+              nrun, (", ".join(sorted(set(alarms))) + (" - " + note if note else "")) if alarms else "none"))
